@@ -477,3 +477,12 @@ def r10_10_truncating_adjusters(ctx: Ctx) -> RuleResult:
         else:
             rr.fail(f.qual, f"the adjusted time is `{got.show()}`, not `N - N%{unit}`: " + ("components finer than the unit survive or coarser ones are lost" if not got.unk else "not shown to be the exact truncation"), ctx.loc(f))
     return rr
+
+
+@rule("C10")
+def r10_11_wraps(ctx: Ctx) -> RuleResult:
+    from ..numeric import check_wraps
+
+    rr = RuleResult("R10.11", "time-of-day factories and accessors: wrap-around helpers only on quantities proved inside the wrapped type's range", min_instances=8)
+    check_wraps(ctx, rr)
+    return rr
